@@ -34,7 +34,7 @@ fn corpus_case(r: &mut Prng) -> Case {
 pub const META_C09: Meta = Meta {
     id: "C09",
     level: "exploration",
-    rule: "Each case is a batch of 24 strings from four sources: (1) token soup - 1-60 tokens from the full token alphabet (every keyword incl. program/init/memory/def/call, every operator incl. ! and ~ in infix position, C X Z, radix and overflowing literals, EOL/CRLF/tab/comment, non-ASCII such as é, emoji, U+0085, combining marks, $, NUL) with and without a valid header in front; (2) mutated valid programs - printer output of generated programs under token deletion / duplication / transposition / replacement, truncation at a random char boundary, an extra C appended past the last column, a reserved keyword inserted at a statement start, and (1.5% of the cases) programs with 65-300 header columns whose rows hold C / X / Z / expressions / bits() at arbitrary columns, the last ones included; (3) the same with LF -> CRLF; (4) shard 0: structured edge cases (empty, blank only, header only +- newline, 1 MB line, 10^5 blank lines, 10^4 columns, 64-deep nesting) and truncation of 40 programs at EVERY char boundary. Oracle per string, under catch_unwind: from_str returns (no panic); on Err every span in ParseError.at satisfies start <= end <= len with both ends on char boundaries; rendering the error with miette's graphical handler and the source attached does not panic and is non-empty. Non-trivial = string has a valid header line (so the body parser is reached) and is not byte-identical to an earlier one.",
+    rule: "Each case is a batch of 24 strings from four sources: (1) token soup - 1-60 tokens from the full token alphabet (every keyword incl. program/init/memory/def/call, every operator incl. ! and ~ in infix position, C X Z, radix and overflowing literals, EOL/CRLF/tab/comment, non-ASCII such as é, emoji, U+0085, combining marks, $, NUL) with and without a valid header in front; (2) mutated valid programs - printer output of generated programs under token deletion / duplication / transposition / replacement, truncation at a random char boundary, an extra C appended past the last column, a reserved keyword inserted at a statement start, and (1.5% of the cases) programs with 65-300 header columns whose rows hold C / X / Z / expressions / bits() at arbitrary columns, the last ones included; (3) the same with LF -> CRLF; (4) shard 0: structured edge cases (empty, blank only, header only +- newline, 1 MB line, 10^5 blank lines, 10^4 columns, 300-column rows of C / X / Z, nesting 64 / 65 / 129 / 257 deep in parentheses, unary chains, loop / while blocks and ite calls) and truncation of 40 programs at EVERY char boundary. Oracle per string, under catch_unwind: from_str returns (no panic); on Err every span in ParseError.at satisfies start <= end <= len with both ends on char boundaries; rendering the error with miette's graphical handler and the source attached does not panic and is non-empty. Non-trivial = string has a valid header line (so the body parser is reached) and is not byte-identical to an earlier one.",
     assumptions: &["nesting depth is bounded (<= 64) to stay clear of native stack exhaustion, as the property's quantifier says"],
     quick_cases: 60000,
     thorough_cases: 1200000,
@@ -187,7 +187,14 @@ fn c09_check(text: &str, case_seed: u64, variant: &str, acc: &mut Acc) -> bool {
 /// arbitrary columns - valid or not, it has to come back from `from_str`.
 fn wide_program(r: &mut Prng) -> String {
     let n = *r.pick(&[65usize, 66, 70, 127, 128, 129, 130, 200, 257, 300]);
-    let mut t: String = (0..n).map(|i| format!("s{i}")).collect::<Vec<_>>().join(" ");
+    let mut names: Vec<String> = (0..n).map(|i| format!("s{i}")).collect();
+    if r.chance(1, 3) {
+        // a repeated name (adjacent or far apart, at a low or a high position): an error, no panic
+        let j = *r.pick(&[0usize, 31, 32, 33, 63, 64, 65, 127, 128, 129, 255, 256]).min(&(n - 2));
+        let k = if r.chance(1, 2) { j + 1 } else { j + 1 + r.below(n - j - 1) };
+        names[k] = names[j].clone();
+    }
+    let mut t: String = names.join(" ");
     t.push('\n');
     for _ in 0..1 + r.below(3) {
         let hot = r.below(n);
@@ -336,6 +343,17 @@ pub fn c09_exhaustive(tier: &str, acc: &mut Acc) -> Value {
         format!("A\n{}1\n{}", "loop(i,1)\n".repeat(64), "end loop\n".repeat(64)),
         format!("A\n{}", "loop(i,1)\n".repeat(64)),
     ];
+    // nesting just past 2^6, 2^7, 2^8 (parentheses, unary chains, blocks, function calls)
+    for d in [65usize, 129, 257] {
+        edge.push(format!("A\n({}1{})\n", "(".repeat(d), ")".repeat(d)));
+        edge.push(format!("A\n({}1)\n", "~".repeat(d)));
+        edge.push(format!("A\n{}1\n{}", "loop(i,1)\n".repeat(d), "end loop\n".repeat(d)));
+        edge.push(format!("A\n{}1\n{}", "while(1)\n".repeat(d), "end while\n".repeat(d)));
+        edge.push(format!("A\n({}1{})\n", "ite(1,".repeat(d), ",0)".repeat(d)));
+        edge.push(format!("A\n{}\n", "bits(1,1) ".repeat(d)));
+        edge.push(format!("A\n{}1\n", "let a = 1;\n".repeat(d)));
+        edge.push(format!("A\n{}1\n", "declare v{} = 1;\n".repeat(1).replace("{}", "0").repeat(d)));
+    }
     let crlf: Vec<String> = edge.iter().filter(|s| s.len() < 10_000).map(|s| s.replace('\n', "\r\n")).collect();
     edge.extend(crlf);
     let mut n = 0u64;
@@ -392,7 +410,7 @@ pub fn c09_exhaustive(tier: &str, acc: &mut Acc) -> Value {
 pub const META_C12: Meta = Meta {
     id: "C12",
     level: "exploration",
-    rule: "Each case takes one generated valid program (accepted by the crate in the same run, so a rejection is due to the edit) and applies every applicable instance of 16 single grammar-breaking edit operators, working on token spans found by the harness tokenizer: M1 delete a block's `end loop`/`end while`; M2 swap `end loop`<->`end while`, bare `end`, `end repeat`; M3 insert `end loop`/`end while` at top level; M4 delete / append one row entry, bits(k+-1,..); M5 delete one `;` `)` `(` `,`; M6 unknown function name, one argument more / fewer; M7 replace a literal by 2^63 / 2^64 in decimal, hex, binary, octal; M8 bits(k,..) with k in {65,100,255,256,10^6} and k+256, k+512, k+2^16, k+2^32; M9 duplicate a header name, duplicate a declare; M10 header only, no line break; M11 truncate at every token boundary at block depth > 0 or strictly inside a statement; M12 more tokens on the same line after a complete statement (`let a = 1; 1 0`, `end loop 1`), `end loopx`; M13 letters glued to a number; M14 a comma where none belongs - dangling before the closing parenthesis, leading after the opening one, doubled, or an empty argument list - in calls of random / ite / signExt and in bits( loop( repeat( while(; M15 one argument too many / too few in bits( loop( repeat( while(; M16 damaged let / declare heads (no name, a number as name, two names, no `=`, `= =`) - each in three endings {as is, trailing newline added, trailing newlines removed} and in LF and CRLF. A mutant counts only if it is invalid by construction AND the independent recogniser refparse rejects it (so a mistake in either cannot alarm alone); then from_str must return Err. Ok = violation; a panic is C09's business and only counted. Non-trivial = a confirmed-invalid mutant of an accepted parent, distinct by text.",
+    rule: "Each case takes one generated valid program (accepted by the crate in the same run, so a rejection is due to the edit) and applies every applicable instance of 16 single grammar-breaking edit operators, working on token spans found by the harness tokenizer: M1 delete a block's `end loop`/`end while`; M2 swap `end loop`<->`end while`, bare `end`, `end repeat`; M3 insert `end loop`/`end while` at top level; M4 delete / append one row entry, bits(k+-1,..); M5 delete one `;` `)` `(` `,`; M6 unknown function name, one argument more / fewer; M7 replace a literal by 2^63 / 2^64 in decimal, hex, binary, octal; M8 bits(k,..) with k in {65,100,255,256,10^6} and k+256, k+512, k+2^16, k+2^32; M9 duplicate a header name, duplicate a declare; M10 header only, no line break; M11 truncate at every token boundary at block depth > 0 or strictly inside a statement; M12 more tokens on the same line after a complete statement (`let a = 1; 1 0`, `end loop 1`), `end loopx`; M13 letters glued to a number; M14 a comma where none belongs - dangling before the closing parenthesis, leading after the opening one, doubled, or an empty argument list - in calls of random / ite / signExt and in bits( loop( repeat( while(; M15 one argument too many / too few in bits( loop( repeat( while(; M16 damaged let / declare heads (no name, a number as name, two names, no `=`, `= =`); 1.5% of the cases are instead wide headers (34-300 names) in which one name is repeated at positions around 32 / 64 / 128 / 256 or at the far end, adjacent or far apart, the column count staying right - each in three endings {as is, trailing newline added, trailing newlines removed} and in LF and CRLF. A mutant counts only if it is invalid by construction AND the independent recogniser refparse rejects it (so a mistake in either cannot alarm alone); then from_str must return Err. Ok = violation; a panic is C09's business and only counted. Non-trivial = a confirmed-invalid mutant of an accepted parent, distinct by text.",
     assumptions: &["refparse.rs (recogniser written from the grammar as stated in C08/C12) confirms invalidity", "harness tokenizer reflex.rs locates tokens"],
     quick_cases: 8000,
     thorough_cases: 200000,
@@ -645,9 +663,64 @@ fn mutants(text: &str, r: &mut Prng) -> Vec<Mutant> {
     out
 }
 
+/// Wide headers (34-300 names) in which ONE name is repeated, at positions around 32 / 64 /
+/// 128 / 256 and at the far end, adjacent or far apart: the column count stays right, the
+/// duplicate is the only thing wrong - the program must be rejected.
+fn c12_wide_duplicates(case_seed: u64, r: &mut Prng, acc: &mut Acc) {
+    let n = *r.pick(&[34usize, 35, 40, 65, 66, 67, 70, 129, 130, 131, 257, 258, 300]);
+    let names: Vec<String> = (0..n).map(|i| format!("s{i}")).collect();
+    let row = vec!["1"; n].join(" ");
+    let mut pairs: Vec<(usize, usize)> = vec![];
+    for &j in &[0usize, 1, 31, 32, 33, 63, 64, 65, 127, 128, 129, 255, 256, 257] {
+        if j + 1 < n {
+            pairs.push((j, j + 1));
+            pairs.push((j, n - 1));
+            if j + 2 < n {
+                pairs.push((j, j + 2 + r.below(n - j - 2)));
+            }
+        }
+    }
+    pairs.push((n - 2, n - 1));
+    let mut ok = true;
+    for (j, k) in pairs {
+        let mut h = names.clone();
+        h[k] = h[j].clone();
+        for tail in ["\n", ""] {
+            let text = format!("{}\n{row}{tail}", h.join(" "));
+            if refparse::recognise(&text).is_ok() {
+                acc.tag("mutant_not_confirmed_invalid_(skipped)");
+                continue;
+            }
+            acc.evaluations += 1;
+            acc.distinct.insert(crate::prng::hash_bytes(text.as_bytes()));
+            match guarded(|| ParsedTestCase::from_str(&text)) {
+                Err(_) => acc.tag("observation:parser_panic_on_mutant_(C09)"),
+                Ok(Err(_)) => acc.tag("rejected:M9-duplicate-name-in-wide-header"),
+                Ok(Ok(_)) => {
+                    acc.violation(
+                        case_seed,
+                        "M9-duplicate-name-in-wide-header",
+                        Finding::new("accepted-malformed:M9-duplicate-name-in-wide-header", format!("header of {n} names in which column {k} repeats the name of column {j} is accepted")),
+                        json!({"text": text}),
+                    );
+                    ok = false;
+                }
+            }
+        }
+        if !ok {
+            return;
+        }
+    }
+    acc.held += 1;
+    acc.nontrivial.insert(crate::prng::hash_bytes(format!("wide-dup-{n}-{case_seed}").as_bytes()));
+}
+
 pub fn c12(case_seed: u64, acc: &mut Acc) {
     let mut r = Prng::new(case_seed);
     acc.cases += 1;
+    if r.chance(15, 1000) {
+        return c12_wide_duplicates(case_seed, &mut r, acc);
+    }
     let c = corpus_case(&mut r);
     let mut lay = c.layout_opts.clone();
     lay.trailing_comments = 0;
